@@ -90,5 +90,21 @@ func c11Structure(c *core.Ctx) {
 		}
 		w1, w2 := callsTo(f, "WriteVariants"), callsTo(f, "AggregateWriteVariants")
 		c.Ob("R1/shared-writers/"+e.pkg, len(w1) == 1 && len(w2) == 1, f.Pos(), "both entry points must hand results to variants.WriteVariants / AggregateWriteVariants (found %d / %d)", len(w1), len(w2))
+		// the position window, the append-snps switch and the threshold reach the writers exactly as the user gave them
+		for _, call := range append(w1, w2...) {
+			cal := call.Common().StaticCallee()
+			for i, prm := range cal.Params {
+				switch prm.Name() {
+				case "start", "end", "appendSNP", "threshold":
+					arg := call.Common().Args[i]
+					isParam := allOrigins(arg, func(o ssa.Value) bool {
+						p, ok := o.(*ssa.Parameter)
+						return ok && p.Name() == prm.Name()
+					})
+					c.Ob("R1/options-reach-writers-unchanged/"+e.pkg+"/"+cal.Name()+"/"+prm.Name(), isParam, call.Pos(),
+						"%s passes %s to %s as %s, not as the caller's own %s parameter: the two commands would treat the same option differently", e.name, prm.Name(), cal.Name(), arg.Name(), prm.Name())
+				}
+			}
+		}
 	}
 }
